@@ -50,6 +50,9 @@ def drv_two(text1, text2, snames, fields):
     return drv(text2, snames, fields)
 
 
+NL = ["\n"]      # line ending used by build(); tasks may switch it to CRLF
+
+
 def build(eng, n_before, n_after, shapes, kl, second=None, pfx="t"):
     cs = []
 
@@ -69,7 +72,7 @@ def build(eng, n_before, n_after, shapes, kl, second=None, pfx="t"):
     def sdef(i):
         lit("@string{")
         snames.append(hole())
-        lit(" = " + SVALS[i % len(SVALS)] + "}\n")
+        lit(" = " + SVALS[i % len(SVALS)] + "}" + NL[0])
         order.append(("s", len(snames) - 1))
 
     for i in range(n_before):
@@ -94,7 +97,7 @@ def build(eng, n_before, n_after, shapes, kl, second=None, pfx="t"):
         else:
             lit("12"); nm = "12"; own.append("12")
         fields.append((f"{fpre}{j}", sh, nm))
-      lit("}\n")
+      lit(NL[0] + "}" + NL[0])
       order.append(("e", len(all_fields)))
       all_fields.append(fields)
       all_own.append(own)
@@ -161,7 +164,8 @@ def native(text, snames, fields, own, order):
     return all(bool(c) for c in conds), exp, [(f.key, f.value) for b in lib.blocks if isinstance(b, M.Entry) for f in b.fields]
 
 
-def task(n_before, n_after, shapes, kl, label, second=None, earlier=None):
+def task(n_before, n_after, shapes, kl, label, second=None, earlier=None, crlf=False):
+    NL[0] = "\r\n" if crlf else "\n"
     eng = Engine()
     rec = Recorder(eng)
     text0 = None
@@ -222,6 +226,11 @@ def main():
                 chk.add_task(name + "-k1", task, n_before=nb, n_after=na, shapes=shapes, kl=1, label=name)
                 if nf == 1 or chk.tier == "thorough":
                     chk.add_task(name + "-k2", task, n_before=nb, n_after=na, shapes=shapes, kl=2, label=name)
+    # CRLF line endings (the last field is directly followed by the line break)
+    for nb, na in ((1, 0), (0, 1)):
+        for shapes in (("bare",), ("braced", "bare"), ("number",)):
+            name = f"crlf-b{nb}a{na}-" + "+".join(shapes)
+            chk.add_task(name, task, n_before=nb, n_after=na, shapes=shapes, kl=1, label=name, crlf=True)
     # a document parsed after another one in the same process (no state may survive between calls)
     for nb, na in ((1, 0), (0, 1), (0, 0), (2, 0)):
         for enb, ena in ((1, 0), (0, 1)):
